@@ -61,7 +61,7 @@ PREIMPORT = ["holopy", "holopy.scattering", "holopy.inference"]
 
 PRIMES = [2.5, 3.25, 5.125, 7.5, 11.25, 13.125, 17.5, 19.25, 23.125, 29.5,
           31.25, 37.125, 41.5, 43.25]
-NAMINGS = ["u", "own", "dup", "auto", "short", "dup0"]
+NAMINGS = ["u", "own", "dup", "auto", "short", "dup0", "dup1"]
 NAMINGS_SHORT = ["u", "dup", "short"]
 WRAPS = ["b", "mul", "addq", "addb", "cplx", "sqrt", "dict", "mulS", "sqrtN"]
 MAXVIOL = 3                  # violation records kept per check per case
@@ -474,6 +474,8 @@ def _build(p):
             names.append("dup")
         elif how == "dup0":
             names.append("dup_0")
+        elif how == "dup1":
+            names.append("dup_1")
         else:
             # like an automatically generated name: the place of another
             # prior ("auto"), or that place without its member prefix, which
@@ -1102,6 +1104,24 @@ def _tie_layouts(tier):
         out.append({"id": "cluster:k=%d" % k, "k": k, "prog": _prog(
             "spheres2", sites, blocks, names=names, wraps=wraps,
             eq=[1] + [0] * k)})
+    # more than ten parameters: every leaf of two spheres and the scaling
+    # have their own prior; the k equal ones sit at both ends of the list
+    # (indices 1, 3, 8, 9, 10 of 11), so that ties renumber two-digit
+    # placeholders.  Refused ties are enumerated up to size 3 only here.
+    wide_sites = [s[0] for s in _sites("spheres2") if s[1] == "scat"] + \
+        ["alpha"]
+    for k in range(3, kmax + 1):
+        pos = sorted([8, 3, 10, 1, 9][:k])
+        eq, g = [], 1
+        for i in range(len(wide_sites)):
+            if i in pos:
+                eq.append(0)
+            else:
+                eq.append(g)
+                g += 1
+        out.append({"id": "wide:k=%d" % k, "k": k, "refuse_max": 3,
+                    "prog": _prog("spheres2", wide_sites,
+                                  range(len(wide_sites)), eq=eq)})
     for k in range(4, kmax + 1):
         # two groups of equal priors (k-2 and 2) interleaved
         sites = ["n", "r", "center.0", "center.1", "center.2"][:k]
@@ -1263,11 +1283,12 @@ def _run_tie(case, cs):
             cur = list(names)
             grp = {n: groups[ref.find(ref.n2b[n])] for n in cur}
             ok_sets, bad_sets = [], []
+            rmax = lay.get("refuse_max", len(cur))
             for r in range(2, len(cur) + 1):
                 for S in itertools.combinations(cur, r):
                     if len({grp[n] for n in S}) == 1:
                         ok_sets.append(S)
-                    else:
+                    elif r <= rmax:
                         bad_sets.append(S)
             # refused ties: unequal / unknown; the state must not change
             unknown = [("no_such_parameter", cur[0]),
